@@ -20,10 +20,11 @@ enum Step {
     ConfSilent,
     Oversize,     // an authentic frame far too long for slow windows, in RX1 or RX2
     ConfOversize, // the same after a confirmed uplink
+    Replay,       // the last accepted downlink heard once more (the network repeating itself), RX1 or RX2
     MacHit,       // an authentic RX1 downlink carrying MAC commands (LinkADRReq with NbTrans 2..15, timing, duty cycle, status)
 }
 
-const STEPS: [Step; 11] = [Step::Silent, Step::Rx1Hit, Step::Rx2Hit, Step::Invalid, Step::Garbage, Step::ClassC, Step::ConfAcked, Step::ConfSilent, Step::Oversize, Step::ConfOversize, Step::MacHit];
+const STEPS: [Step; 12] = [Step::Replay, Step::Silent, Step::Rx1Hit, Step::Rx2Hit, Step::Invalid, Step::Garbage, Step::ClassC, Step::ConfAcked, Step::ConfSilent, Step::Oversize, Step::ConfOversize, Step::MacHit];
 
 impl Monitor for C06 {
     fn prop(&self) -> &'static str {
@@ -45,7 +46,7 @@ impl Monitor for C06 {
         if tier == Tier::Sanitizer {
             vec!["uplinks_decoded"]
         } else {
-            vec!["uplinks_decoded", "faults_injected", "fault_tx", "fault_rx_setup", "fault_rx", "session_expired_reported", "counter_crossed_16bit", "mac_command_steps", "adjacent_double_faults", "port0_uplinks"]
+            vec!["uplinks_decoded", "faults_injected", "fault_tx", "fault_rx_setup", "fault_rx", "session_expired_reported", "counter_crossed_16bit", "mac_command_steps", "adjacent_double_faults", "port0_uplinks", "replay_steps"]
         }
     }
 
@@ -149,6 +150,7 @@ fn run_history(front: Front, reg: regions::Reg, start: u32, steps: &[Step], faul
     }
     let fname = if tx_async { "nb-async-tx" } else { front.name() };
     let mut fcnt_down: u32 = 0;
+    let mut last_accepted: Option<Vec<u8>> = None;
     let mut fault_iter = faults.iter().copied();
     let mut next_fault = fault_iter.next();
     let mut sent: Vec<(Vec<u8>, usize, &'static str)> = vec![]; // (bytes, step index, nearest preceding fault)
@@ -178,11 +180,31 @@ fn run_history(front: Front, reg: regions::Reg, start: u32, steps: &[Step], faul
         }
         let confirmed = matches!(st, Step::ConfAcked | Step::ConfSilent | Step::ConfOversize);
         fcnt_down += 1;
-        let good = net.downlink(&Down { fcnt: fcnt_down, ack: confirmed, port: Some(5), payload: &[i as u8], ..Default::default() });
+        // (one downlink in three is a confirmed one)
+        let good = net.downlink(&Down { fcnt: fcnt_down, ack: confirmed, confirmed: (i as u64 + seed / 7) % 3 == 0, port: Some(5), payload: &[i as u8], ..Default::default() });
         match st {
             Step::Silent | Step::ConfSilent => {}
-            Step::Rx1Hit | Step::ConfAcked => script.rx1.push(good),
-            Step::Rx2Hit => script.rx2.push(good),
+            Step::Rx1Hit | Step::ConfAcked => {
+                last_accepted = Some(good.clone());
+                script.rx1.push(good)
+            }
+            Step::Rx2Hit => {
+                last_accepted = Some(good.clone());
+                script.rx2.push(good)
+            }
+            Step::Replay => {
+                // (confirmed or not, it was accepted once: now it is a replay and must cost nothing but
+                // the counter of the uplink it answers)
+                fcnt_down -= 1;
+                if let Some(prev) = &last_accepted {
+                    if (i as u64 + seed) % 2 == 0 {
+                        script.rx1.push(prev.clone());
+                    } else {
+                        script.rx2.push(prev.clone());
+                    }
+                    col.event("replay_steps");
+                }
+            }
             Step::MacHit => {
                 // commands that may change how the device treats its uplinks; data rate, power and
                 // mask are left as they are (DR 15 / power 15 = keep; mask = the plan's default set)
